@@ -37,7 +37,11 @@ func main() {
 		var names []string
 		for f := range p.AllFns {
 			if inRepo(f) && f.Synthetic == "" && f.Parent() == nil && !strings.HasSuffix(p.relFile(f.Pos()), "_test.go") {
-				names = append(names, fname(f))
+				var ps []string
+				for _, q := range f.Params {
+					ps = append(ps, q.Name())
+				}
+				names = append(names, fname(f)+"\t"+strings.Join(ps, ","))
 			}
 		}
 		sort.Strings(names)
